@@ -29,9 +29,13 @@ def _stack():
         pass
 
 
-def run_proc(exe, lines, timeout, big_stack=False):
+def run_proc(exe, lines, timeout, big_stack=False, env=None):
+    e = None
+    if env:
+        e = dict(os.environ)
+        e.update(env)
     p = subprocess.run([exe], input="\n".join(lines) + "\n", stdout=subprocess.PIPE, stderr=subprocess.PIPE,
-                       text=True, timeout=timeout, preexec_fn=_stack if big_stack else None)
+                       text=True, timeout=timeout, preexec_fn=_stack if big_stack else None, env=e)
     out = p.stdout.split("\n")
     if out and out[-1] == "":
         out.pop()
@@ -148,11 +152,12 @@ def gen_msg(r, thorough, allow_big):
         "flags": r.choice([0, 0, 1, 2, 3, 4, 7, 128, 255]), "preset": preset, "nfds": r.choice([0, 0, 1, 2, 3]),
         "pay": pay, "seed": r.randrange(1 << 16), "mode": mode, "off": r.choice([0, 0, 3, 8]) if mode == "parts" else 0,
         "script": gen_script(r, pay > 300000),
+        "api": "wall" if r.random() < 0.12 else "ctx",
     }
 
 
 def msg_str(m):
-    return " ".join("%s=%s" % (k, m[k]) for k in ("bo", "hv", "plen", "flags", "preset", "nfds", "pay", "seed", "mode", "off", "script"))
+    return ("api=wall " if m.get("api") == "wall" else "") + " ".join("%s=%s" % (k, m[k]) for k in ("bo", "hv", "plen", "flags", "preset", "nfds", "pay", "seed", "mode", "off", "script"))
 
 
 def gen_case(r, thorough):
@@ -334,7 +339,7 @@ def model_line(head, msgs, results):
         calls = model_calls(res)
         if calls is None:
             return None
-        parts.append("bo=%s typ=%d flags=%d preset=%s fields=%s prefix=%s pay=%d seed=%d nfds=%d calls=%s" % (
+        parts.append(("api=wall " if m.get("api") == "wall" else "") + "bo=%s typ=%d flags=%d preset=%s fields=%s prefix=%s pay=%d seed=%d nfds=%d calls=%s" % (
             m["bo"], TYP_OF_HV[m["hv"]], m["flags"], m["preset"], fields.hex() if fields else "-", res["prefix"],
             int(res["bodylen"]) - (len(res["prefix"]) // 2 if res["prefix"] != "-" else 0), m["seed"], m["nfds"], ";".join(calls)))
     return " | ".join(parts)
@@ -365,11 +370,35 @@ def compare_model(m, res, mod):
 def evaluate(ctx, exe, drv, cases, model_max, timeout):
     lines = [case_line(h, ms) for h, ms in cases]
     outs = run_sharded(exe, lines, timeout=timeout)
+    # A case that exceeded the per-case deadline may only have been starved of CPU: it counts as a hang only
+    # when it also exceeds a much longer deadline running alone. Once two hangs are confirmed the other
+    # candidates are not re-run (each costs the long deadline); they are counted, not reported.
+    long_deadline = 300 if ctx.tier == "thorough" else 120
+    confirmed = 0
+    for i, (o, _) in enumerate(outs):
+        if o != "HANG":
+            continue
+        if confirmed >= 2:
+            outs[i] = ("HANG-NOT-RERUN", "")
+            continue
+        try:
+            rc, o2, e2 = run_proc(exe, [lines[i]], long_deadline + 60, env={"VERIF_C10_DEADLINE_S": str(long_deadline)})
+        except subprocess.TimeoutExpired:
+            o2 = ["HANG"]
+        if o2 and o2[0] != "HANG":
+            outs[i] = (o2[0], "")
+            ctx.count("deadline_exceeded_but_finished_when_run_alone")
+        else:
+            confirmed += 1
     mlines, midx = [], []
     parsed = []
     for ci, ((head, msgs), (out, err), line) in enumerate(zip(cases, outs, lines)):
         if out is None:
             ctx.tie_broken("harness c10 crashed, hung or produced short output", "%s\n%s" % (line[:400], err))
+            parsed.append(None)
+            continue
+        if out == "HANG-NOT-RERUN":
+            ctx.count("deadline_exceeded_not_rerun(two hangs already confirmed)")
             parsed.append(None)
             continue
         if out == "HANG":
@@ -423,6 +452,7 @@ def evaluate(ctx, exe, drv, cases, model_max, timeout):
             ctx.count("positions_inside_header", inhdr)
             ctx.count("write_calls", len(writes))
             ctx.count("mode:" + m["mode"])
+            ctx.count("api:send_message_write_all" if m.get("api") == "wall" else "api:send_message+context")
         # ---- model replay
         if all(int(res.get("total", "0") or 0) <= model_max and res.get("senderr") == "0" for res in results):
             ml = model_line(head, msgs, results)
@@ -567,7 +597,8 @@ def run(ctx):
                 "than the socket buffer), flags, preset/fresh serial, 0-3 real descriptors (pipes, compared by st_dev/st_ino), "
                 "body of 0 B .. %s built by push_param or from_parts (with buffer offset), and a random script of "
                 "write_once(Nonblock) / peer drains / into_progress / resume / write(Nonblock) / write(1ms) ended by a "
-                "write loop or write_all; the kernel decides every accepted size, the harness records it and the model "
+                "write loop or write_all, or (about one message in eight) sent through the public wrapper "
+                "send_message_write_all while a thread drains the peer; the kernel decides every accepted size, the harness records it and the model "
                 "replays it. A case is non-trivial when it saw a short write, EAGAIN or a suspension at a partial position; "
                 "distinct = distinct (message, observed schedule)") % ("4 MiB" if thorough else "256 KiB")
     ctx.trusted = ["Coq 8.16.1 kernel (coqc), no native_compute", "extraction with ExtrOcamlBasic only, ocamlfind ocamlopt 4.13.1",
